@@ -166,18 +166,38 @@ func ruleR12_1(c *Check) {
 		if !ok {
 			return true
 		}
+		// whatever the spelling (if/else, inverted test with early break): a table is taken only
+		// when it overlaps, the loop is left when one does not, and no table is skipped over
+		ov := w.Func("badger.keyRange.overlapsWith")
+		isOv := func(e ast.Expr) bool {
+			call, ok := unparen(e).(*ast.CallExpr)
+			return ok && w.Callee(call) == types.Object(ov)
+		}
+		breaks, conts, takes, takesOK := 0, 0, 0, true
 		ast.Inspect(rs.Body, func(m ast.Node) bool {
-			if is, ok := m.(*ast.IfStmt); ok && is.Else != nil {
-				if call, ok := unparen(is.Cond).(*ast.CallExpr); ok && w.Callee(call) == w.Func("badger.keyRange.overlapsWith") {
-					if eb, ok := is.Else.(*ast.BlockStmt); ok && len(eb.List) == 1 {
-						if b, ok := eb.List[0].(*ast.BranchStmt); ok && b.Tok == token.BREAK {
-							okBreak = true
-						}
+			switch x := m.(type) {
+			case *ast.FuncLit:
+				return false
+			case *ast.BranchStmt:
+				if x.Tok == token.CONTINUE {
+					conts++
+				}
+				if x.Tok == token.BREAK && HasGuard(w.Guards(lb, x), false, isOv) != nil {
+					breaks++
+				}
+			case *ast.CallExpr:
+				if isBuiltin(w, x, "append") {
+					takes++
+					if HasGuard(w.Guards(lb, x), true, isOv) == nil {
+						takesOK = false
 					}
 				}
 			}
 			return true
 		})
+		if breaks >= 1 && conts == 0 && takes >= 1 && takesOK {
+			okBreak = true
+		}
 		return true
 	})
 	r.Check(okBreak, lb, "L0->Lbase takes a prefix of L0 in age order", nil, "the selection loop of fillTablesL0ToLbase no longer stops at the first non-overlapping table: tables older than a picked one could be left out")
@@ -810,6 +830,10 @@ func propC13(c *Check) {
 	ruleR13_2(c)
 	ruleR13_3(c)
 	ruleR13_4(c)
+	// what the watermark and the merge exemption rest on (round-2 seeds broke retention through them):
+	ruleR01_4(c) // the read mark is released once per reader
+	ruleR25_1(c) // stream producers share the snapshot's read mark and do not release it
+	ruleR15_4(c) // a GC rewrite keeps the entry's meta bits (merge bit included)
 }
 
 // ---- C14 ----
